@@ -57,7 +57,7 @@ func genPlan(t *rapid.T) (rig.ConnPlan, string) {
 		pl := rig.ConnPlan{Kind: "serve", ALPN: alpn, NReq: rapid.IntRange(0, 3).Draw(t, "nreq"), Limit: -1}
 		if alpn == "h2" {
 			// a client that also sends the frames fingerprinting looks at, and more than once
-			pl.H2Extra = rapid.SliceOfNDistinct(rapid.SampledFrom([]string{"wu-conn", "wu-stream", "priority", "ping", "settings"}), 0, 4, rapid.ID[string]).Draw(t, "extra")
+			pl.H2Extra = rapid.SliceOfNDistinct(rapid.SampledFrom([]string{"wu-conn", "wu-stream", "priority", "ping", "settings", "priority-flood"}), 0, 4, rapid.ID[string]).Draw(t, "extra")
 			pl.LastStream = rapid.SampledFrom([]string{"", "", "", "client-rst", "malformed", "self-dependent"}).Draw(t, "last")
 		}
 		return pl, "served:" + map[string]string{"h2": "h2", "http/1.1": "http/1.1", "": "no-alpn"}[alpn]
@@ -83,8 +83,16 @@ func gen(t *rapid.T) Script {
 			}
 		}
 		ops = append(ops, Step{"sleep", 0})
+		if n-len(started) >= 2 {
+			ops = append(ops, Step{"start_all", 0}, Step{"start_all", 0})
+		}
 		st := rapid.SampledFrom(ops).Draw(t, "step")
 		switch st.Op {
+		case "start_all":
+			// every connection not started yet arrives in one burst: the accept loop takes them back to back
+			for i := 0; i < n; i++ {
+				started[i] = true
+			}
 		case "start":
 			started[st.Conn] = true
 		case "finish":
@@ -231,6 +239,19 @@ func exec(t *testing.T, s Script) *vstat.Violation {
 					break
 				}
 				runs[st.Conn] = r
+			case "start_all":
+				for i := range s.Plans {
+					if runs[i] != nil {
+						continue
+					}
+					r, err := rig.StartClient(p, s.Plans[i], nil, fmt.Sprintf("c%d", i))
+					if err != nil {
+						viol = vstat.Violf("harness|dial", "%v", err)
+						break
+					}
+					runs[i] = r
+				}
+				classes["connections-arrive-in-a-burst"] = true
 			case "finish":
 				if runs[st.Conn] != nil {
 					runs[st.Conn].Finish()
@@ -297,6 +318,6 @@ func exec(t *testing.T, s Script) *vstat.Violation {
 
 func TestMetric(t *testing.T) {
 	rig.Certs()
-	col.Mandatory("label:0/", "label:1/h2", "label:1/http/1.1", "label:1/", "plan:plainhttp", "plan:garbage", "plan:silent", "plan:serve:h2:close", "plan:serve:http/1.1:stall", "handshake-or-capture-fails:odd-record-version", "proxy-cannot-write-to-a-non-tls-client")
+	col.Mandatory("label:0/", "label:1/h2", "label:1/http/1.1", "label:1/", "plan:plainhttp", "plan:garbage", "plan:silent", "plan:serve:h2:close", "plan:serve:http/1.1:stall", "handshake-or-capture-fails:odd-record-version", "proxy-cannot-write-to-a-non-tls-client", "connections-arrive-in-a-burst")
 	vstat.Run(t, vstat.Spec[Script]{Col: col, Quick: 1000, Thorough: 30000, Gen: gen, Exec: func(s Script) *vstat.Violation { return exec(t, s) }})
 }
